@@ -111,6 +111,51 @@ def known_match(entry, op, inp, obs):
     return False
 
 
+BAD_BYTES = [b'\xe9', b'\xff', b'\x80', b'\xc0\x80', b'\xed\xa0\x80', b'\xe2\x82', b'\xf0\x9f\x98', b'\xfe\xff', b'caf\xe9']
+
+
+def extra(tier, rng):
+    """support: the clause "a gzip-compressed file gives the same result as the same file uncompressed" on files as bytes,
+    including bytes that are not UTF-8 (a Latin-1 name in a path). Both readings reject, or both return the same mappings."""
+    os.makedirs(WORK, exist_ok=True)
+    base = os.path.join(WORK, 'contents-b-%d' % os.getpid())
+    fails = []
+    done = bad = 0
+    try:
+        for i in range(150 if tier == 'quick' else 3000):
+            narr, header, rows, has_header, text = case(rng)
+            data = text.encode('utf-8')
+            if i % 4 != 3 and data:
+                # damage: a byte sequence that is not UTF-8, somewhere (mostly inside a line, sometimes at a line or file end)
+                for _ in range(rng.choice((1, 1, 2))):
+                    k = rng.choice((rng.randrange(len(data) + 1), len(data), max(0, len(data) - 1)))
+                    data = data[:k] + rng.choice(BAD_BYTES) + data[k:]
+                bad += 1
+            with open(base, 'wb') as f:
+                f.write(data)
+            with gzip.open(base + '.gz', 'wb') as f:
+                f.write(data)
+            out = []
+            for loc in (base, base + '.gz'):
+                try:
+                    out.append(dicts(contents.parse_contents(loc, has_header=has_header)))
+                except Exception as e:
+                    out.append(Exc(type(e).__name__))
+            done += 1
+            both_raise = isinstance(out[0], Exc) and isinstance(out[1], Exc)
+            if not both_raise and out[0] != out[1]:
+                fails.append({'op': 'C18', 'input': [narr, header, rows, has_header, text],
+                              'what': 'the file as bytes %r: plain reading gives %s, gzip reading gives %s'
+                                      % (data[:300], repr(out[0])[:200], repr(out[1])[:200])})
+    finally:
+        for loc in (base, base + '.gz'):
+            try:
+                os.remove(loc)
+            except OSError:
+                pass
+    return {'gzip_vs_plain_on_bytes': 'compared %d files written as bytes (%d with sequences that are not UTF-8)' % (done, bad)}, fails
+
+
 def streams(tier, rng):
     n = 1500 if tier == 'quick' else 20000
     yield {'name': 'tables-through-real-files', 'op': 'C18', 'cases': (case(rng) for _ in range(n))}
